@@ -53,6 +53,8 @@ func (c04) Thresholds(tier string) map[string]int64 {
 		"disabled-options":           2000,
 		"cell:first:expression":      1000,
 		"surrounding-whitespace":     2000,
+		"node-shown-twice":           500,
+		"inline:unary-on-literal":    800,
 	}
 	for _, pos := range c04Positions {
 		for _, cl := range gen.TextClasses() {
@@ -66,7 +68,7 @@ func (c04) Thresholds(tier string) map[string]int64 {
 }
 
 func (c04) Rule() string {
-	return "case = one script of 25 lines and option groups built per character from unit classes {ASCII letters/digits/punctuation, colon, blanks, multi-byte letters, CJK, astral, combining marks, NBSP/ideographic space, bare < > } / and ->, and every escapable character \\\\ \\< \\> \\{ \\} \\# \\/ \\[ \\] escaped} with explicit position classes (first character of the line, second, after an expression, last, interior), 0-4 inline expressions of each type (numbers chosen for display-form coverage: integers up to 2^53-1, -0, 0.1+0.2, values within 1e-9 and within one ulp of an integer, 1e-7, 123456.5, 1234567.5, 1e15+0.5, 1e21), 0-3 tags, trailing comments, blanks at either edge; option groups of 1-5 options with every kind of condition subset (none / some / all; literal, variable-dependent). Ground truth by construction: text = concatenation of the units' outputs and the values' display forms, stripped of surrounding Unicode white space; tags in order; Disabled[i] iff option i carries a condition that is false. Numbers outside the zone in which all shortest-round-trip conventions agree are accepted in any notation that parses back to the value with the shortest digit string (integral values: digits only). Non-trivial: an escape or special character in a non-interior position, or a non-integer number, or a condition subset that is neither empty nor full. Distinct by hash of the source line. A further script per case makes a line (or option) fail half-way through its text and checks that every text returned afterwards is one of the script's literal texts, unchanged. Lines whose text begins with \\[ or \\] are the known finding K1 and run in a sub-workload of their own."
+	return "case = one script of 25 lines and option groups built per character from unit classes {ASCII letters/digits/punctuation, colon, blanks, multi-byte letters, CJK, astral, combining marks, NBSP/ideographic space, bare < > } / and ->, and every escapable character \\\\ \\< \\> \\{ \\} \\# \\/ \\[ \\] escaped} with explicit position classes (first character of the line, second, after an expression, last, interior), 0-4 inline expressions of each type (numbers chosen for display-form coverage: integers up to 2^53-1, -0, 0.1+0.2, values within 1e-9 and within one ulp of an integer, 1e-7, 123456.5, 1234567.5, 1e15+0.5, 1e21), 0-3 tags, trailing comments, blanks at either edge; option groups of 1-5 options with every kind of condition subset (none / some / all; literal, variable-dependent). Ground truth by construction: text = concatenation of the units' outputs and the values' display forms, stripped of surrounding Unicode white space; tags in order; Disabled[i] iff option i carries a condition that is false. Numbers outside the zone in which all shortest-round-trip conventions agree are accepted in any notation that parses back to the value with the shortest digit string (integral values: digits only). Non-trivial: an escape or special character in a non-interior position, or a non-integer number, or a condition subset that is neither empty nor full. Distinct by hash of the source line. A further script per case makes a line (or option) fail half-way through its text and checks that every text returned afterwards is one of the script's literal texts, unchanged. Lines whose text begins with \\[ or \\] are the known finding K1 and run in a sub-workload of their own. Inline expressions and option conditions include literals under unary operators (-5, not false, !true), and half of the scripts show the whole node a second time through a jump (same runner, same parsed tree): the second showing must be rendered exactly as the first."
 }
 
 func (c04) Assumptions() []string {
@@ -83,7 +85,7 @@ var c04Pre = map[string]model.Val{
 	"frac": model.N(0.1 + 0.2), "tiny": model.N(1e-7), "mid": model.N(123456.5), "large": model.N(1234567.5),
 	"huge": model.N(1e21), "e15": model.N(1e15 + 0.5), "bigint": model.N(1e18), "third": model.N(1.0 / 3),
 	"near1": model.N(2.0000000001), "near2": model.N(math.Nextafter(3, 4)), "near3": model.N(-7.0000000002), "near4": model.N(0.1 * 3 * 10), "near5": model.N(math.Nextafter(1e6, 0)),
-	"yes": model.B(true), "no": model.B(false),
+	"yes": model.B(true), "no": model.B(false), "round": model.N(0),
 	"s": model.S("str"), "pad": model.S(" pad "), "uni": model.S("Ünï 日本 😀"), "empty": model.S(""),
 }
 
@@ -111,12 +113,17 @@ func c04Expr(r *core.Rand, c *core.Ctx) *hast.Expr {
 			return hast.Bin("+", hast.Var(v), hast.Num("0"))
 		case 1:
 			c.Feature("display:integer")
+			if r.Chance(1, 3) {
+				// a literal under a unary minus (written in the script, not held in a variable)
+				c.Feature("inline:unary-on-literal")
+				return hast.Neg(hast.Num(r.Pick("5", "2.5", "0", "12.0")))
+			}
 			return hast.Num(r.Pick("0", "7", "100", "12.0", "3.50", "007"))
 		}
 		return hast.Var(v)
 	case 1:
 		c.Feature("inline:boolean")
-		return []*hast.Expr{hast.Var("yes"), hast.Var("no"), hast.Bool(true), hast.Bin(">", hast.Var("int"), hast.Num("50"))}[r.Intn(4)]
+		return []*hast.Expr{hast.Var("yes"), hast.Var("no"), hast.Bool(true), hast.Bin(">", hast.Var("int"), hast.Num("50")), hast.Not(hast.Bool(false)), hast.Not(hast.Bool(true)), hast.Not(hast.Var("no"))}[r.Intn(7)]
 	}
 	c.Feature("inline:string")
 	return []*hast.Expr{hast.Var("s"), hast.Var("pad"), hast.Var("uni"), hast.Var("empty"), hast.Str("lit #notag //nocomment <<nocmd>>"), hast.Bin("+", hast.Var("s"), hast.Str("}"))}[r.Intn(6)]
@@ -174,7 +181,11 @@ func (p c04) Run(c *core.Ctx) {
 				mode := r.Intn(3) // 0: few conditions, 1: many, 2: all
 				if mode == 2 || mode == 1 && r.Chance(2, 3) || mode == 0 && r.Chance(1, 6) {
 					conds++
-					switch r.Intn(5) {
+					switch r.Intn(7) {
+					case 5:
+						o.Cond = hast.Not(hast.Bool(false))
+					case 6:
+						o.Cond = hast.Not(hast.Bool(true))
 					case 0:
 						o.Cond = hast.Bool(true)
 					case 1:
@@ -216,6 +227,16 @@ func (p c04) Run(c *core.Ctx) {
 			c.FeatureN("tags", len(st.Tags))
 			body = append(body, st)
 		}
+	}
+	// half of the scripts show the whole node a second time (same runner, same parsed tree): every line and
+	// option must be rendered as written again
+	again := r.Bool()
+	if again {
+		body = append(body, &hast.Stmt{K: hast.SIf, Clauses: []*hast.Clause{{
+			Cond: hast.Bin("==", hast.Var("round"), hast.Num("0")),
+			Body: []*hast.Stmt{{K: hast.SSet, Var: "round", Op: "=", X: hast.Num("1")}, {K: hast.SJump, Target: "Start"}},
+		}}})
+		c.Feature("node-shown-twice")
 	}
 	prog := &hast.Program{Readers: 1, Nodes: []*hast.Node{{Title: "Start", Body: body}}}
 	lay := hast.L0()
